@@ -830,6 +830,7 @@ fn gen_synth(t: &mut Tape, arch: usize) -> (String, FnSpec) {
     p.unreachable = t.chance(1, 4);
     p.max_expr_depth = 2;
     p.raw_divisor_permille = 0;
+    p.index_gaps_permille = 200;
     let mut g = gen_fn(t, &p);
     for blk in g.spec.blocks.iter_mut() {
         for o in blk.iter_mut() {
